@@ -9,6 +9,8 @@ import json, os, shutil, subprocess, sys, glob, re, time
 
 ROOT = os.path.dirname(os.path.dirname(os.path.abspath(__file__)))
 ENV = dict(os.environ, CARGO_NET_OFFLINE="true")
+# the tree the checks of this copy of /verif are pointed at (a scratch worktree when a scratch copy of /verif is used)
+TREE = os.environ.get("VERIF_REGRESS_REPO", "/repo")
 
 
 def sh(cmd, cwd=None, timeout=1800):
@@ -102,11 +104,11 @@ def main():
         else:
             sh("git -C /repo worktree remove --force %s" % wt)
     # --- 2. our checks against it
-    rc, o = sh(["git", "-C", "/repo", "status", "--porcelain", "--untracked-files=no"])
+    rc, o = sh(["git", "-C", TREE, "status", "--porcelain", "--untracked-files=no"])
     if o.strip():
         meta["error"] = "/repo is not clean"
         return finish(meta, out_dir, patch, demos, sdir)
-    sh(["git", "-C", "/repo", "apply", patch])
+    sh(["git", "-C", TREE, "apply", patch])
     try:
         props = [prop]
         if run_all:
@@ -126,8 +128,8 @@ def main():
                     shutil.copy(m.group(1), os.path.join(out_dir, "replay_" + os.path.basename(m.group(1))))
         meta["ran"].append("git -C /repo apply patch.diff; ./check <P>; git -C /repo checkout -- .")
     finally:
-        sh(["git", "-C", "/repo", "checkout", "--", "."])
-        sh(["git", "-C", "/repo", "clean", "-fdq", "--", "src", "shred-derive", "tests", "examples", "benches"])
+        sh(["git", "-C", TREE, "checkout", "--", "."])
+        sh(["git", "-C", TREE, "clean", "-fdq", "--", "src", "shred-derive", "tests", "examples", "benches"])
         # evidence files were rewritten against the mutated tree: restore the committed ones
         sh("git -C %s checkout -- evidence" % ROOT)
         for f in glob.glob(os.path.join(ROOT, "replays", "*.json")):
